@@ -22,12 +22,12 @@ type Piece struct {
 }
 
 type PrintModel struct {
-	fn       *ssa.Function
-	reads    map[string]bool // receiver fields read
-	consts   []string        // all string constants in the method (incl. helper arguments)
-	seqs     [][]Piece       // alternative flattened concatenations of the result
-	opaque   bool            // contains a loop or a construct the model does not follow
-	joins    []*ssa.Call     // sqlJoin calls
+	fn     *ssa.Function
+	reads  map[string]bool // receiver fields read
+	consts []string        // all string constants in the method (incl. helper arguments)
+	seqs   [][]Piece       // alternative flattened concatenations of the result
+	opaque bool            // contains a loop or a construct the model does not follow
+	joins  []*ssa.Call     // sqlJoin calls
 }
 
 func (w *World) PrintModel(ns *NodeStruct) *PrintModel {
